@@ -2,7 +2,7 @@
 import json,sys,subprocess,os
 pid=sys.argv[1]; rnd=sys.argv[2]
 prevs=[]
-for suf in ['','r2','r3','r4','r5','r6','r7']:
+for suf in ['','r2','r3','r4','r5','r6','r7','r8']:
     f=f'/verif/seeded/{pid}{suf}/meta.json'
     if os.path.exists(f): prevs.append(json.load(open(f))['summary'][:380])
 base=subprocess.check_output(['python3',os.path.join(os.path.dirname(os.path.abspath(__file__)),'agent_prompt.py'),pid]).decode()
